@@ -392,6 +392,12 @@ class _BoundClosure:
 
 def call_fn(eng, st, fn, args):
     """call a closure-like value on scalar arguments, in ghost mode, single result"""
+    from .engine import CurState
+
+    if isinstance(st, CurState):
+        st = eng.cur_state
+    else:
+        eng.cur_state = st
     st.ghost += 1
     try:
         if isinstance(fn, _BoundClosure):
@@ -595,6 +601,7 @@ def saturate(eng, formulas, rounds=3, unroll_limit=6, level=0):
     extra = []
     done = set()
     scratch = eng.new_scratch_state()
+    eng.cur_state = scratch
     forms = list(formulas)
     for _ in range(rounds):
         acc = {}
